@@ -120,6 +120,10 @@ def run_case(case, monitors=(), max_restarts=0, setup=None, lifecycle=None):
             m.finish(h, res, case)
     except HarnessError as exc:
         res.error = f'HarnessError: {exc}'
+        if h is not None:
+            res.error += ' | stops=' + str(h.stops) + ' | log tail: ' + (
+                ' // '.join(m[:120] for _, m in h.log.records[-12:]))
+            res.error += ' | events: ' + ' // '.join(sim.events[-12:])
     except Exception as exc:
         res.error = 'harness exception: ' + ''.join(
             traceback.format_exception(type(exc), exc, exc.__traceback__))[-1500:]
